@@ -33,9 +33,15 @@ META = {
             "type, other type} x 5 server key sets x {password, pkey}. C: SSHClient.connect over 16 known_hosts "
             "shapes (same key, different key same type, only other types, hashed, [host]:port, default-port-only "
             "vs other port, other host, empty, two server key types) x 5 policies x {load_host_keys, "
-            "load_system_host_keys}: credentials reach the server only if the reference accepts.",
+            "load_system_host_keys} x GSS-API option {not requested, gss_kex requested but not negotiated, "
+            "gss_auth requested} (the server offers no GSS-API method, so an ordinary key exchange with an "
+            "ordinary host key takes place): credentials reach the server only if the reference accepts. The GSS "
+            "option is also applied to B (Transport built and connected with gss_kex=True).",
     "note": "peer is a real paramiko server Transport with a scripted ServerInterface; one canonical delivery "
-            "order pair instead of all packet crossings; known_hosts wildcards/markers are outside the space",
+            "order pair instead of all packet crossings; known_hosts wildcards/markers are outside the space; no "
+            "GSS-API library is installed, so the context object the client creates up front is a stand-in "
+            "(vmc-side FakeGSS: fixed OID list, fixed MIC, never completes a security context); a key "
+            "exchange that really is GSS-authenticated is outside the space",
     "design_ref": "4/C17",
 }
 
@@ -85,6 +91,88 @@ def make_server():
 
 def is_auth_entry(e):
     return e[0].startswith("auth_")
+
+
+# ============================================================================== GSS-API option
+GSS_MODES = ("none", "gss-kex-requested", "gss-auth-requested")
+KRB5_OID_DER = bytes.fromhex("06092a864886f712010202")
+
+
+class FakeGSS:
+    """Stand-in for the object paramiko.ssh_gss.GSSAuth() returns when a GSS-API library is present.
+    It can name its mechanism and produce a (worthless) MIC, but never establishes a security context -
+    enough for a client that *asks* for GSS-API while the server offers none."""
+
+    def __init__(self, auth_method, gss_deleg_creds=True):
+        self._auth_method = auth_method
+        self._gss_deleg_creds = gss_deleg_creds
+        self._username = None
+        self._service = "ssh-connection"
+        self._gss_host = None
+        self._gss_flags = None
+        self._gss_ctxt_status = False
+        self._session_id = None
+        self.cc_file = None
+
+    def set_service(self, service):
+        self._service = service
+
+    def set_username(self, username):
+        self._username = username
+
+    def ssh_gss_oids(self, mode="client"):
+        return (1).to_bytes(4, "big") + len(KRB5_OID_DER).to_bytes(4, "big") + KRB5_OID_DER
+
+    def ssh_check_mech(self, desired_mech):
+        return desired_mech == KRB5_OID_DER
+
+    def ssh_init_sec_context(self, target, desired_mech=None, username=None, recv_token=None):
+        raise SSHException("FakeGSS: no credentials")
+
+    def ssh_get_mic(self, session_id, gss_kex=False):
+        return b"fake-mic-" + bytes(8)
+
+    def ssh_accept_sec_context(self, hostname, recv_token, username=None):
+        raise SSHException("FakeGSS: no acceptor credentials")
+
+    def ssh_check_mic(self, mic_token, session_id, username=None):
+        raise SSHException("FakeGSS: bad MIC")
+
+    @property
+    def credentials_delegated(self):
+        return False
+
+    def save_client_creds(self, client_token):
+        raise NotImplementedError
+
+
+class gss_library_present:
+    """Environment: a GSS-API library is importable (paramiko's factory hands out FakeGSS objects)."""
+
+    def __init__(self, on):
+        self.on = on
+        self.saved = []
+
+    def __enter__(self):
+        if self.on:
+            import paramiko.transport as _t, paramiko.auth_handler as _a
+            for mod in (_t, _a):
+                self.saved.append((mod, mod.GSSAuth))
+                mod.GSSAuth = FakeGSS
+        return self
+
+    def __exit__(self, *a):
+        for mod, orig in self.saved:
+            mod.GSSAuth = orig
+        return False
+
+
+def gss_kwargs(gss):
+    if gss == "gss-kex-requested":
+        return {"gss_kex": True, "gss_trust_dns": False}
+    if gss == "gss-auth-requested":
+        return {"gss_auth": True, "gss_trust_dns": False}
+    return {}
 
 
 # ============================================================================== part A
@@ -309,21 +397,23 @@ SERVER_KEYSETS = (("ed25519",), ("rsa",), ("ecdsa-256",), ("ed25519", "rsa"), ("
 EXPECTED = ("ed25519", "ed25519-b", "rsa", "rsa-b", "ecdsa-256", "ecdsa-256-b")
 
 
-def connect_b(keyset, expected, how):
+def connect_b(keyset, expected, how, gss="none"):
     out = {}
     hold = {}
+    gkw = gss_kwargs(gss)
 
     def body(s):
         srv = make_server()
-        p = F.Pair(server=srv, hostkeys=keyset, tclass=VTransport)
+        p = F.Pair(server=srv, hostkeys=keyset, tclass=VTransport,
+                   client_kw={"gss_kex": True} if gss == "gss-kex-requested" else None)
         hold["p"], hold["srv"] = p, srv
         p.tc.auth_timeout = 3
         p.ts.start_server(paramiko.transport.threading.Event(), srv)
         try:
             if how == "password":
-                p.tc.connect(hostkey=getkey(expected), username="alice", password=SECRET)
+                p.tc.connect(hostkey=getkey(expected), username="alice", password=SECRET, **gkw)
             else:
-                p.tc.connect(hostkey=getkey(expected), username="alice", pkey=F.key("ecdsa-256"))
+                p.tc.connect(hostkey=getkey(expected), username="alice", pkey=F.key("ecdsa-256"), **gkw)
             out["result"] = ("ok",)
         except Exception as e:
             out["result"] = ("exc", type(e).__name__, str(e)[:80])
@@ -333,7 +423,8 @@ def connect_b(keyset, expected, how):
         p.close()
         s.quiesce()
 
-    ex, hung = CF.run(body, horizon=100.0, step_budget=60_000)
+    with gss_library_present(gss != "none"):
+        ex, hung = CF.run(body, horizon=100.0, step_budget=60_000)
     out["outcome"] = ex.outcome
     out["error"] = repr(ex.error) if ex.error is not None else None
     if "p" in hold:
@@ -344,9 +435,10 @@ def connect_b(keyset, expected, how):
 
 
 def judge_b(case, o):
-    keyset, expected, how = case
+    keyset, expected, how, gss = case
+    sfx = "" if gss == "none" else ":" + gss
     if o["outcome"] != "ok":
-        return [("B:no-quiescence(%s)" % o["outcome"], o["error"])]
+        return [("B:no-quiescence(%s)%s" % (o["outcome"], sfx), o["error"])]
     exp = getkey(expected)
     pres = o["presented"]
     same = pres is not None and pres == (exp.get_name(), exp.get_base64())
@@ -357,12 +449,19 @@ def judge_b(case, o):
     v = []
     if not same:
         if got_creds:
-            v.append(("B:credentials-sent-to-server-with-wrong-host-key:%s:%s" % (cls, how),
-                      {"server_log": o["server_auth_log"], "result": o["result"]}))
+            if gss != "none" and not o["server_auth_log"] and set(o["server_rcvd_auth_types"]) <= {5}:
+                # no credential packet: the host key given to connect() was not compared and the client went
+                # on to request the userauth service (one key whatever credential connect() was given)
+                v.append(("B:wrong-host-key-not-refused(userauth-service-requested):%s%s" % (cls, sfx),
+                          {"server_rcvd": o["server_rcvd_auth_types"], "result": o["result"]}))
+            else:
+                v.append(("B:credentials-sent-to-server-with-wrong-host-key:%s:%s%s" % (cls, how, sfx),
+                          {"server_log": o["server_auth_log"], "server_rcvd": o["server_rcvd_auth_types"],
+                           "result": o["result"]}))
         elif o["result"][0] == "ok":
-            v.append(("B:connect-did-not-raise-on-wrong-host-key:%s" % cls, o["result"]))
+            v.append(("B:connect-did-not-raise-on-wrong-host-key:%s%s" % (cls, sfx), o["result"]))
     if o["secret_on_wire"] or [t for t in o["plaintext_types"] if t in AUTH_TYPES]:
-        v.append(("B:plaintext-auth", o["plaintext_types"]))
+        v.append(("B:plaintext-auth" + sfx, o["plaintext_types"]))
     return v, cls
 
 
@@ -420,7 +519,7 @@ class _AcceptPolicy(paramiko.MissingHostKeyPolicy):
         self.snap()
 
 
-def connect_c(cfg, policy, store, tmpdir):
+def connect_c(cfg, policy, store, tmpdir, gss="none"):
     label, keyset, port, text = cfg
     out = {}
     hold = {}
@@ -456,13 +555,14 @@ def connect_c(cfg, policy, store, tmpdir):
                 cl.connect(HOST, port=port, username="alice", password=SECRET, sock=sc,
                            allow_agent=False, look_for_keys=False, auth_timeout=3,
                            transport_factory=lambda sock, **kw: Transport(
-                               sock, packetizer_class=F.RecPacketizer, **kw))
+                               sock, packetizer_class=F.RecPacketizer, **kw), **gss_kwargs(gss))
             out["result"] = ("ok",)
         except Exception as e:
             out["result"] = ("exc", type(e).__name__, str(e)[:80])
         s.quiesce()
         out["policy_snapshots"] = snaps
         t = cl.get_transport()
+        out["gss_kex_used"] = bool(t.gss_kex_used) if t is not None else None
         k = t.host_key if t is not None else None
         if k is None and ts.host_key_type and ts.get_server_key() is not None and ts.initial_kex_done:
             k = ts.get_server_key()
@@ -475,7 +575,8 @@ def connect_c(cfg, policy, store, tmpdir):
         except OSError:
             pass
 
-    ex, hung = CF.run(body, horizon=100.0, step_budget=60_000)
+    with gss_library_present(gss != "none"):
+        ex, hung = CF.run(body, horizon=100.0, step_budget=60_000)
     out["outcome"] = ex.outcome
     out["error"] = repr(ex.error) if ex.error is not None else None
     if "ts" in hold:
@@ -488,10 +589,13 @@ def connect_c(cfg, policy, store, tmpdir):
 
 
 def judge_c(case, o):
-    cfg, policy, store = case
+    cfg, policy, store, gss = case
     label, keyset, port, text = cfg
+    sfx = "" if gss == "none" else ":" + gss
     if o["outcome"] != "ok":
-        return [("C:no-quiescence(%s)" % o["outcome"], o["error"])], "?"
+        return [("C:no-quiescence(%s)%s" % (o["outcome"], sfx), o["error"])], "?"
+    if o.get("gss_kex_used"):
+        raise RuntimeError("C17 harness: GSS key exchange was negotiated with a server that offers none")
     pres = o["presented"]
     v = []
     got_creds = bool(o["server_auth_log"] or o["server_rcvd_auth_types"])
@@ -503,17 +607,18 @@ def judge_c(case, o):
     pol = policy if why == "unknown-host" else "-"
     if not accepted:
         if got_creds:
-            v.append(("C:credentials-sent-to-unaccepted-server:%s:policy=%s" % (why, pol),
-                      {"config": label, "store": store, "server_log": o["server_auth_log"],
+            v.append(("C:credentials-sent-to-unaccepted-server:%s:policy=%s%s" % (why, pol, sfx),
+                      {"config": label, "store": store, "gss": gss, "server_log": o["server_auth_log"],
                        "server_rcvd": o["server_rcvd_auth_types"], "result": o["result"]}))
         elif o["result"][0] == "ok":
-            v.append(("C:connect-did-not-raise:%s:policy=%s" % (why, pol), {"config": label, "store": store}))
+            v.append(("C:connect-did-not-raise:%s:policy=%s%s" % (why, pol, sfx),
+                      {"config": label, "store": store, "gss": gss}))
     for types, log in o["policy_snapshots"]:
         if types or log:
-            v.append(("C:server-received-auth-before-policy-decided:policy=%s" % policy,
-                      {"config": label, "types": types, "log": log}))
+            v.append(("C:server-received-auth-before-policy-decided:policy=%s%s" % (policy, sfx),
+                      {"config": label, "gss": gss, "types": types, "log": log}))
     if o["secret_on_wire"]:
-        v.append(("C:secret-visible-in-byte-stream", {"config": label}))
+        v.append(("C:secret-visible-in-byte-stream" + sfx, {"config": label, "gss": gss}))
     return v, why
 
 
@@ -556,32 +661,35 @@ def run_items(item, acc):
                     acc.count("B_accepted_and_authenticated")
                 if not vs and cls == "other-key-same-type" and not any(x.get("part") == "B" for x in acc.samples):
                     acc.sample({"part": "B", "server_keys": case[0], "expected": case[1], "auth": case[2],
+                                "gss_option": case[3],
                                 "presented": o["presented"][0], "api_result": o["result"],
                                 "server_auth_callbacks": o["server_auth_log"],
                                 "server_rcvd_auth_types": o["server_rcvd_auth_types"]})
                 rep = {"part": "B", "case": list(case)}
             else:
-                cfg, policy, store = case
-                o = connect_c(cfg, policy, store, _TMP[0])
+                cfg, policy, store, gss = case
+                o = connect_c(cfg, policy, store, _TMP[0], gss)
                 vs, why = judge_c(case, o)
-                acc.nt(("C", cfg[0], policy, store))
+                acc.nt(("C", cfg[0], policy, store, gss))
                 acc.count("C_ref_" + why)
+                if gss != "none":
+                    acc.count("C_" + gss)
                 if o.get("ref", (False,))[0]:
                     acc.count("C_ref_accepts")
                     if o.get("server_auth_log"):
                         acc.count("C_accepted_and_credentials_delivered")
                     else:
                         acc.count("C_over_rejections(reference accepts, client refused)")
-                        acc.note("over-rejection (allowed by the statement): %s / %s / %s -> %s"
-                                 % (cfg[0], policy, store, o.get("result")))
+                        acc.note("over-rejection (allowed by the statement): %s / %s / %s / gss=%s -> %s"
+                                 % (cfg[0], policy, store, gss, o.get("result")))
                 else:
                     acc.count("C_ref_rejects")
                 if not vs and cfg[0] in ("hashed-different-key", "default-port-entry-only-while-port-2222") \
-                        and policy == "reject" and store == "host_keys":
+                        and policy == "reject" and store == "host_keys" and gss != "gss-auth-requested":
                     acc.sample({"part": "C", "known_hosts": cfg[0], "port": cfg[2], "policy": policy,
-                                "store": store, "reference": o.get("ref"), "api_result": o.get("result"),
+                                "store": store, "gss_option": gss, "reference": o.get("ref"), "api_result": o.get("result"),
                                 "server_auth_callbacks": o.get("server_auth_log")})
-                rep = {"part": "C", "case": [cfg[0], policy, store]}
+                rep = {"part": "C", "case": [cfg[0], policy, store, gss]}
             for key, detail in vs:
                 acc.violation(key, {"case": rep["case"], "detail": detail}, rep)
     finally:
@@ -598,23 +706,31 @@ def build_items(tier):
     for ks in SERVER_KEYSETS:
         for exp in EXPECTED:
             for how in ("password", "pkey"):
-                items.append(("B", (ks, exp, how)))
+                for gss in GSS_MODES:
+                    items.append(("B", (ks, exp, how, gss)))
     for cfg in kh_configs():
         for pol in POLICIES:
             for store in STORES:
-                items.append(("C", (cfg, pol, store)))
+                for gss in GSS_MODES:
+                    # quick: the GSS-API option is crossed with one store only
+                    if gss != "none" and tier == "quick" and store != "host_keys":
+                        continue
+                    items.append(("C", (cfg, pol, store, gss)))
     return items
 
 
 def main(tier):
     ck = core.Check(PID, tier, "exploration",
                     "A: case = (kex, scenario, delivery order, auth call, quiescent point at which it is made); "
-                    "B: (server key set, expected key, auth); C: (known_hosts shape, policy, store). nontrivial = "
+                    "B: (server key set, expected key, auth, GSS option); C: (known_hosts shape, policy, store, GSS "
+                    "option: none / gss_kex requested but not negotiated / gss_auth requested). nontrivial = "
                     "distinct cases in which the connection was really driven to that point / configuration and "
                     "the peer-side trace was inspected",
                     ["peer = real paramiko server Transport; gated virtual wire, one write delivered per step",
                      "two canonical delivery orders, not all packet crossings",
-                     "known_hosts without wildcards / markers; one hostname; ports 22 and 2222"])
+                     "known_hosts without wildcards / markers; one hostname; ports 22 and 2222",
+                     "GSS-API: library stand-in on the client (no credentials), server offers no GSS-API method; "
+                     "gss_trust_dns=False (no DNS in the harness)"])
     items = build_items(tier)
     ck.extra["bound"] = {p: sum(1 for q, _ in items if q == p) for p in "ABC"}
     _TMP.append(tempfile.mkdtemp(prefix="c17-", dir="/dev/shm"))
@@ -634,13 +750,14 @@ def replay(rec):
             o = lifecycle(*case)
             vs = judge_a(case, o)
         elif r["part"] == "B":
-            case = (tuple(r["case"][0]), r["case"][1], r["case"][2])
+            case = (tuple(r["case"][0]), r["case"][1], r["case"][2], r["case"][3] if len(r["case"]) > 3 else "none")
             o = connect_b(*case)
             vs = judge_b(case, o)[0]
         else:
             cfg = [c for c in kh_configs() if c[0] == r["case"][0]][0]
-            case = (cfg, r["case"][1], r["case"][2])
-            o = connect_c(cfg, r["case"][1], r["case"][2], tmp)
+            gss = r["case"][3] if len(r["case"]) > 3 else "none"
+            case = (cfg, r["case"][1], r["case"][2], gss)
+            o = connect_c(cfg, r["case"][1], r["case"][2], tmp, gss)
             vs = judge_c(case, o)[0]
     finally:
         shutil.rmtree(tmp, ignore_errors=True)
